@@ -128,8 +128,21 @@ def check(case):
     return res
 
 
+@st.composite
+def window_case(draw):
+    mode = draw(st.sampled_from([[], [], [], ["--noopt"], ["--nodebump"], ["--nodebump", "--noopt"], ["--clean"]]))
+    opts = list(mode)
+    for o in ("--keep-chain", "--whitespace", "--drop-water"):
+        if draw(st.integers(0, 3)) == 0:
+            opts.append(o)
+    return dict(part="windows", desc=draw(e2e.window_structure()), ff=draw(st.sampled_from(strat.FFS)), opts=opts)
+
+
 def parts(tier):
-    return [Part("e2e", check, strategy=case(), budget=dict(quick=640, thorough=12000))]
+    return [
+        Part("e2e", check, strategy=case(), budget=dict(quick=640, thorough=12000)),
+        Part("windows", check, strategy=window_case(), budget=dict(quick=240, thorough=5000)),
+    ]
 
 
 def selftest():
